@@ -74,4 +74,10 @@ CHECKS = {
         "text": "Every history up to the bound over {FIRST, CONTINUATION, LAST, UNSEGMENTED} x 2 APIDs x {in sequence, gap}, with wrap-around base counts and several secondary-header lengths, is fed to packet_generator(combine_segmented_packets=True); the yielded raw_data list must equal the model's and no tagged raw packet may contribute to two outputs. States of the model, packets fed and histories replayed are measured.",
         "note": "Warnings are not compared; histories longer than the bound are not explored (the family does not sample).",
     },
+    "C11": {
+        "level": "model_checking",
+        "technique": "exhaustive enumeration of packet streams x option combinations against per-packet solo runs, and exhaustive lattice-path interleaving of next() calls over generators sharing one definition against their sequential runs; definition canon and package-state footprint compared before/after",
+        "text": "All streams of <= 4 packets over a 5-packet palette under all 8 option combinations must equal the concatenation of solo results; all interleavings of 2 (and 3) generators, including segment-combining ones and one over a scripted socket, must give each generator its sequential output; the definition and every module/class-level attribute of the package must be unchanged. Position vectors (states), next() calls (transitions) and interleavings (traces) are measured.",
+        "note": "Interleaving is of next() calls in one thread (the library has no threads); the footprint monitor covers module- and class-level attributes of all loaded space_packet_parser modules.",
+    },
 }
